@@ -13,5 +13,9 @@ func main() {
 		workerMain()
 		return
 	}
+	if len(os.Args) > 3 && os.Args[1] == "try" {
+		tryMain(os.Args[2], os.Args[3])
+		return
+	}
 	vh.Main()
 }
